@@ -2,8 +2,9 @@
   Model of /repo/logger/httpd.go `(*Logger).Relay` together with /repo/httpd/store.go
   `ResponseWriter` (C15).
 
-  * A handler behaviour is a list of events `writeHeader c | write | panic v | ret`; the end of
-    the list is a plain return.
+  * A handler behaviour is a list of events `writeHeader c | write | flush | panic v | ret`; the
+    end of the list is a plain return.  `flush` is `store.W.Flush()` / `FlushError()` on an
+    origin that can flush (recorder, net/http server): net/http sends the implicit 200 header.
   * `RW` is the pair (ResponseWriter.Status, header already sent by the underlying
     http.ResponseWriter).  The origin keeps the FIRST header ("superfluous WriteHeader" is
     ignored by net/http) and sends an implicit 200 on the first body write; when the handler
@@ -31,6 +32,7 @@ inductive PanicVal where
 inductive Ev where
   | writeHeader (c : Nat)
   | write
+  | flush
   | panic (v : PanicVal)
   | ret
   deriving Repr, DecidableEq
@@ -98,6 +100,7 @@ structure Prog where
   guard500 : Option Nat
   writeImplicit : Option (Nat × Nat)
   writeHeaderRecords : Bool
+  flushImplicit : Option (Nat × Nat)   -- Flush/FlushError: `if Status == a { WriteHeader(b) }` first
   deriving Repr, DecidableEq
 
 /-- what /repo says now -/
@@ -114,6 +117,7 @@ def prog : Prog where
   guard500 := Generated.relay500Guard
   writeImplicit := Generated.storeWriteImplicit
   writeHeaderRecords := Generated.storeWriteHeaderRecords
+  flushImplicit := Generated.storeFlushImplicit
 
 /-- net/http: only the first WriteHeader reaches the client -/
 def originWriteHeader (w : Option Nat) (c : Nat) : Option Nat :=
@@ -135,6 +139,14 @@ def RW.write (P : Prog) (rw : RW) : RW :=
     | none => rw
   { rw1 with wire := originWrite rw1.wire }
 
+/-- `(*ResponseWriter).Flush` / `FlushError` (origin is a Flusher): record the implicit status
+    if the code does so, then the origin flushes — which sends 200 if no header was sent yet -/
+def RW.flush (P : Prog) (rw : RW) : RW :=
+  let rw1 := match P.flushImplicit with
+    | some (a, b) => if rw.status = a then rw.writeHeader P b else rw
+    | none => rw
+  { rw1 with wire := originWrite rw1.wire }
+
 /-- `http.Error(w, msg, code)`: `w.WriteHeader(code)` then the message -/
 def RW.httpError (P : Prog) (rw : RW) (c : Nat) : RW := (rw.writeHeader P c).write P
 
@@ -145,6 +157,7 @@ def runH (P : Prog) : List Ev → RW → RW × Option PanicVal
   | .panic v :: _, rw => (rw, some v)
   | .writeHeader c :: es, rw => runH P es (rw.writeHeader P c)
   | .write :: es, rw => runH P es (rw.write P)
+  | .flush :: es, rw => runH P es (rw.flush P)
 
 /-! ### Relay -/
 
@@ -238,10 +251,12 @@ def relay (thr : Nat) (req : Req) (beh : List Ev) : Out := relayWith prog thr re
 
 /-! ### what a behaviour does, independently of Relay (used by the property statements) -/
 
-/-- status the handler itself put on the response before it ended (explicit, or 200 by writing) -/
+/-- status the handler itself put on the response before it ended (explicit, or the implicit 200
+    of the first write or flush) -/
 def statusOf : List Ev → Option Nat
   | .writeHeader c :: _ => some c
   | .write :: _ => some 200
+  | .flush :: _ => some 200
   | _ => none
 
 /-- the value the handler panicked with, if it did -/
@@ -258,12 +273,14 @@ def noHeader : List Ev → Bool
   | .panic _ :: _ => true
   | .writeHeader _ :: _ => false
   | .write :: es => noHeader es
+  | .flush :: es => noHeader es
 
-/-- "status set once": once the status is set (explicitly, or implicitly by writing), the handler
+/-- "status set once": once the status is set (explicitly, or implicitly by writing or flushing), the handler
     does not call `WriteHeader` again. -/
 def setOnce : List Ev → Bool
   | .writeHeader _ :: es => noHeader es
   | .write :: es => noHeader es
+  | .flush :: es => noHeader es
   | _ => true
 
 /-- every explicit status code is in `lo..hi` -/
